@@ -31,6 +31,11 @@ def programs(n):
             P.append({"expr": ("op", name, I(0), I(1)), "kinds": list(kinds)})
     for name in O.ASSERT1:
         P.append({"expr": ("op", name, I(0)), "kinds": ["S"]})
+    # fixed-point operands (operand values are representation integers: the relation is the one on the representations)
+    for name in O.ASSERT2:
+        P.append({"expr": ("op", name, I(0), I(1)), "kinds": ["F", "F"]})
+    for name in ("assert_zero", "assert_nonzero", "assert_positive"):
+        P.append({"expr": ("op", name, I(0)), "kinds": ["F"]})
     P.append({"expr": ("op", "assert_zero", I(0)), "kinds": ["B"]})
     P.append({"expr": ("op", "assert_nonzero", I(0)), "kinds": ["B"]})
     for kinds in (("S", "K", "K"), ("S", "S", "S"), ("S", "K", "S")):
